@@ -243,14 +243,18 @@ def cleanup_handler(ctx, f, t):
     """Catch-all handler of try ``t`` that calls delete_consumers and
     re-raises: returns the delete_consumers call or None."""
     for h in t.handlers:
-        if not cfgmod.handler_is_catch_all(h):
-            continue
         calls = [n for n in own_nodes_of(h) if isinstance(n, ast.Call)
                  and DELETE_CONSUMERS in C.call_name(ctx, f, n)]
         reraises = any(isinstance(n, ast.With) and cfgmod.is_reraise_with(n)
                        for n in own_nodes_of(h)) or any(
             isinstance(n, ast.Raise) and n.exc is None
             for n in own_nodes_of(h))
+        if not cfgmod.handler_is_catch_all(h):
+            # a narrower clause in front of the catch-all takes its
+            # exceptions away from the clean-up unless it cleans up too
+            if not (calls and reraises):
+                return None
+            continue
         if calls and reraises:
             return calls[0]
     return None
